@@ -10,9 +10,13 @@ C16 — open options change performance, not behaviour.
   validity predicate the theorems assume (`params_valid`).
 * Growth arithmetic (`tx.rs:299-307`): the computed extension always covers the required size, for
   every current size, requirement and step (`growth_covers`), in whole steps (`growth_whole_steps`).
+* Layer C: the contents a commit leaves in a bucket do not depend on the page size or on any split
+  threshold (`commit_contents_independent_of_pagesize`), and with the regenerated tunables commit keeps
+  the tree invariant at every page size (`commit_invariant_any_pagesize`).
 -/
 import Jamm.Gen.Params
 import Jamm.Gen.Steps
+import Jamm.Proofs.CommitCompose
 set_option linter.unusedSectionVars false
 
 namespace Jamm.Props.C16
@@ -52,5 +56,20 @@ theorem grow_before_writes : before Gen.commitSteps .grow .writeData = true := b
 
 /-- non-vacuity -/
 example : grownSize 4096 (9 * 1024 * 1024) Gen.params.minAllocSize = 4096 + 16 * 1024 * 1024 := by decide
+
+/-- the same transaction committed under two page sizes (hence different split points and different
+rebalance step lists) leaves the same contents in the bucket -/
+theorem commit_contents_independent_of_pagesize (ps1 ps2 hdr leafHdr branchHdr bmSize : Nat)
+    (steps1 steps2 : List RbStep) (t : Tree Bytes Ent) (h : TreeInv t) :
+    (commitTree Gen.params ps1 hdr leafHdr branchHdr bmSize steps1 t).flatten =
+    (commitTree Gen.params ps2 hdr leafHdr branchHdr bmSize steps2 t).flatten := by
+  obtain ⟨d, hu⟩ := h.uniform
+  rw [commitTree_flatten _ _ _ _ _ _ steps1 t d hu, commitTree_flatten _ _ _ _ _ _ steps2 t d hu]
+
+/-- with the tunables of the current source, commit keeps the tree invariant at every page size -/
+theorem commit_invariant_any_pagesize (pagesize hdr leafHdr branchHdr bmSize : Nat)
+    (steps : List RbStep) (t : Tree Bytes Ent) (h : TreeInv t) :
+    TreeInv (commitTree Gen.params pagesize hdr leafHdr branchHdr bmSize steps t) :=
+  commitTree_inv Gen.params pagesize hdr leafHdr branchHdr bmSize params_valid (by decide) steps t h
 
 end Jamm.Props.C16
